@@ -58,7 +58,7 @@ def write_tree(root, tree):
         p = os.path.join(root, rel)
         os.makedirs(os.path.dirname(p), exist_ok=True)
         open(p, "wb").write(content)
-        os.utime(p, (mt, mt))
+        os.utime(p, ns=(mt * 10**9, mt * 10**9))
 
 
 def snapshot(root):
@@ -67,7 +67,7 @@ def snapshot(root):
         for f in files:
             p = os.path.join(d, f)
             st = os.stat(p)
-            snap[os.path.relpath(p, root)] = (open(p, "rb").read(), int(st.st_mtime))
+            snap[os.path.relpath(p, root)] = (open(p, "rb").read(), st.st_mtime_ns)
     return snap
 
 
@@ -151,6 +151,34 @@ def compare(before, after, exp):
     return None
 
 
+def _cid(b):
+    return hashlib.sha1(b).hexdigest()[:12]
+
+
+def model_case(before, after, flags, sub):
+    """(driver line, expected canonical result, description) for one run, restricted to the subtree the command was pointed at"""
+    def inside(rel):
+        return (rel.startswith(sub + os.sep) if sub else True)
+
+    def strip(rel):
+        return rel[len(sub) + 1:] if sub else rel
+    tree = ";".join("%s:%s:%d" % (hx(strip(r)), _cid(c), mt // 10**9) for r, (c, mt) in sorted(before.items()) if inside(r)) or "-"
+    table = {}
+    for r, (c, mt) in before.items():
+        if inside(r) and r.endswith(".goht"):
+            ref = reference_output(c)
+            table[_cid(c)] = _cid(ref) if ref is not None else "-"
+    tbl = ",".join("%s>%s" % kv for kv in sorted(table.items())) or "-"
+    skip = ",".join(hx(x) for x in flags.get("skip", ["vendor", "node_modules"])) or "-"
+    line = "generate %d%d %s %s %s" % (1 if flags.get("force") else 0, 1 if flags.get("keep") else 0, skip, tree, tbl)
+    rows = []
+    for r, (c, mt) in after.items():
+        if inside(r):
+            changed = r not in before or before[r] != (c, mt)
+            rows.append("%s:%s:%d" % (hx(strip(r)), _cid(c), -1 if changed else mt // 10**9))
+    return line, ";".join(sorted(rows)), {"flags": flags, "sub": sub}
+
+
 def run(chk):
     br = common.build_all()
     chk.proof_step(br)
@@ -169,6 +197,7 @@ def run(chk):
                     "templates in the thorough tier; non-trivial = tree with a stale template; distinct by tree+flags")
         ncases = 140 if quick else 4000
         nbad = 0
+        model_cases = []
         for case in range(ncases):
             tree = gen_tree(rng)
             if not quick and case % 200 == 0:
@@ -201,6 +230,7 @@ def run(chk):
                     chk.case(json.dumps(sorted((k, hashlib.sha1(v[0]).hexdigest()[:8], v[1]) for k, v in before.items())) + json.dumps(history[-1], sort_keys=True),
                              nontrivial=stale)
                     chk.count("run")
+                    model_cases.append(model_case(before, after, flags, sub))
                     why = compare(before, after, exp)
                     if rc_ != 0 and not why:
                         why = "goht generate exited with status %d" % rc_
@@ -220,10 +250,10 @@ def run(chk):
                         if k < 0.35 and rel.endswith(".goht"):
                             open(p, "wb").write(rng.choice(T_OK + T_BAD).encode())
                             t = BASE + 10_000 * (step + 1) + rng.randint(0, 99)
-                            os.utime(p, (t, t))
+                            os.utime(p, ns=(t * 10**9, t * 10**9))
                         elif k < 0.55:
                             t = BASE + 20_000 * (step + 1)
-                            os.utime(p, (t, t))
+                            os.utime(p, ns=(t * 10**9, t * 10**9))
                         elif k < 0.75:
                             os.remove(p)
                     flags = dict(flags)
@@ -236,6 +266,16 @@ def run(chk):
                                       runs=history, log=log[-1500:])
             finally:
                 shutil.rmtree(root, ignore_errors=True)
+        # L-CLI correspondence: the Coq model of the command on the same trees (contents abstracted to hashes; the
+        # compiler+gofmt table is the reference the oracle uses)
+        if br.coq_ok and model_cases:
+            lines = [m[0] for m in model_cases]
+            for (line, want, desc), got in zip(model_cases, common.run_lines_parallel(common.DRIVER, lines)):
+                if got != want:
+                    chk.broke("correspondence", "L-CLI", "the model of goht generate and the real command disagree", case=desc,
+                              model=got[:600], impl=want[:600])
+                else:
+                    chk.traces += 1
         chk.samples = [{"tree": sorted(tree)[:12], "flags": flags}]
     return chk.finish(level="proof", level_note=LEVEL_NOTE)
 
